@@ -190,7 +190,14 @@ pub fn check_node(sink: &mut Sink, xot: &Xot, vocab: &Vocab, t: &GTree, path: &[
     }
     // unresolved_namespaces / inherited_prefixes (normal nodes: traverse yields nothing otherwise)
     if sub.is_normal() {
-        let got: BTreeSet<usize> = xot.unresolved_namespaces(node).into_iter().map(ns_num).collect();
+        // a panic of the crate here is a failure of the property, not of the harness (seed C09h)
+        let got: BTreeSet<usize> = match crate::common::guarded(|| xot.unresolved_namespaces(node)) {
+            Some(v) => v.into_iter().map(ns_num).collect(),
+            None => {
+                fail(sink, "C09", "C09:unresolved_namespaces-panics", "unresolved_namespaces panicked on a tree built through the public API", t, path, "unresolved");
+                return;
+            }
+        };
         let (aware, blind) = expected_unresolved(vocab, sub);
         for ns in got.difference(&aware) {
             match *ns {
@@ -206,7 +213,13 @@ pub fn check_node(sink: &mut Sink, xot: &Xot, vocab: &Vocab, t: &GTree, path: &[
                 fail(sink, "C09", "C09:unresolved_namespaces-misses-attribute-namespace-bound-only-as-default", &format!("namespace {} of an attribute is bound inside the subtree only as the default namespace (unusable for attributes) and is not reported", ns), t, path, "unresolved");
             }
         }
-        let inh: Scope = xot.inherited_prefixes(node).into_iter().map(|(p, n)| (prefix_num(p), ns_num(n))).collect();
+        let inh: Scope = match crate::common::guarded(|| xot.inherited_prefixes(node)) {
+            Some(v) => v.into_iter().map(|(p, n)| (prefix_num(p), ns_num(n))).collect(),
+            None => {
+                fail(sink, "C09", "C09:inherited_prefixes-panics", "inherited_prefixes panicked on a tree built through the public API", t, path, "inherited");
+                return;
+            }
+        };
         let parent_scope: Scope = if path.is_empty() { Scope::new() } else { resolve(t, &path[..path.len() - 1]) };
         for (p, n) in &inh {
             if parent_scope.get(p) != Some(n) {
